@@ -505,6 +505,18 @@ impl QuorumSamplingStrategy for PartitionSampler {
     }
 }
 
+/// Number of seats `floor(stake / total_stake * k)` a validator is guaranteed out of `k`.
+///
+/// Computed exactly in integer arithmetic, floating point can round an exact share down.
+fn guaranteed_seats(stake: Stake, total_stake: Stake, k: u64) -> u64 {
+    (u128::from(stake.inner()) * u128::from(k) / u128::from(total_stake.inner())) as u64
+}
+
+/// Stake `floor(seats * total_stake / k)` accounted for by `seats` out of `k` seats.
+fn stake_of_seats(seats: u64, total_stake: Stake, k: u64) -> Stake {
+    Stake::new((u128::from(seats) * u128::from(total_stake.inner()) / u128::from(k)) as u64)
+}
+
 /// A sampler that uses the FA1-F committee sampling strategy.
 ///
 /// This is a strict improvement over performing IID stake-weighted sampling.
@@ -533,9 +545,8 @@ impl FaitAccompli1Sampler<PartitionSampler> {
         let mut required_samples = Vec::new();
         let mut validators_truncated_stake = validators.clone();
         for v in &mut validators_truncated_stake {
-            let frac_stake = v.stake.inner() as f64 / total_stake.inner() as f64;
-            let samples = (frac_stake * k as f64).floor() as u64;
-            v.stake -= Stake::new(samples * total_stake.inner() / k);
+            let samples = guaranteed_seats(v.stake, total_stake, k);
+            v.stake -= stake_of_seats(samples, total_stake, k);
             required_samples.extend((0..samples).map(|_| v.id));
         }
         let all_zero = validators_truncated_stake
@@ -565,9 +576,8 @@ impl FaitAccompli1Sampler<IidQuorumSampler<StakeWeightedSampler>> {
         let mut required_samples = Vec::new();
         let mut validators_truncated_stake = validators.clone();
         for v in &mut validators_truncated_stake {
-            let frac_stake = v.stake.inner() as f64 / total_stake.inner() as f64;
-            let samples = (frac_stake * k as f64).floor() as u64;
-            v.stake -= Stake::new(samples * total_stake.inner() / k);
+            let samples = guaranteed_seats(v.stake, total_stake, k);
+            v.stake -= stake_of_seats(samples, total_stake, k);
             required_samples.extend((0..samples).map(|_| v.id));
         }
         let all_zero = validators_truncated_stake
@@ -636,8 +646,7 @@ impl FaitAccompli2Sampler {
         let total_stake: Stake = validators.iter().map(|v| v.stake).sum();
         let mut required_samples = Vec::new();
         for v in &validators {
-            let frac_stake = v.stake.inner() as f64 / total_stake.inner() as f64;
-            let samples = (frac_stake * k as f64).floor() as u64;
+            let samples = guaranteed_seats(v.stake, total_stake, k);
             required_samples.extend((0..samples).map(|_| v.id));
         }
 
